@@ -131,6 +131,12 @@ def run(chk):
         for ks in cuts_for(rng, body, boundary, thorough):
             traces.append(mplib.run_split(boundary, body, ks, kind='wellformed'))
             chk.count(1, ('u', boundary, len(body), tuple(ks[:6]), len(ks)))
+        # another upload (same boundary or not) is parsed, start to end, between any two reads of this one
+        oth = (boundary, body) if i % 2 else gen_upload(rng, 120)
+        for ks in cuts_for(rng, body, boundary, False)[:(30 if thorough else 8)]:
+            if len(ks) > 1:
+                traces.append(mplib.run_split(boundary, body, ks, kind='wellformed', between=oth))
+                chk.count(1, ('between', boundary, len(body), tuple(ks[:6]), len(ks)))
         # prefixes of it
         for _ in range(6 if thorough else 3):
             p = body[:rng.randint(0, len(body))]
